@@ -494,7 +494,7 @@ static void lock_required(const char *what)
                 VIOL(P_C16, "C16: %s callback invoked with lock depth %d (must be exactly 1)", what, I.depth);
 }
 
-int w_force_refuse;     /* refusal-run probe: every io attempt is refused, no choice is consumed */
+int w_force_refuse;     /* refusal-run probe: every io attempt is refused, no choice is consumed (2: only reads are refused: idle probe) */
 int w_noread_value;     /* value io_read returns for "no byte" when refuse_read does not say otherwise */
 
 /* Values by which the environment says "no": io callbacks (cat.h: only 1 means done) and mutex / variable callbacks
@@ -557,7 +557,7 @@ static int io_write(char ch)
         lock_required("io write");
         L.writes_attempted++;
         /* refuse_write: 1 = refusals return 0; 2.. = another value of io_no_value (cat.h: only 1 means written) */
-        if (w_force_refuse) { L.writes_refused++; return io_no_value(W.refuse_write); }
+        if (w_force_refuse == 1) { L.writes_refused++; return io_no_value(W.refuse_write); }
         if (W.refuse_write && mcx_choose(2) == 1) { L.writes_refused++; return io_no_value(W.refuse_write); }
         L.writes_accepted++;
         if (L.out_n < (int)sizeof L.out) L.out[L.out_n++] = (uint8_t)ch;
@@ -1006,7 +1006,7 @@ static int do_service(void)
                         else if (s != CAT_STATUS_OK)
                                 VIOL(P_C15, "C15: cat_service had returned OK, yet the next call without new stimulus returned %d", s);
                         else if (want_stutter && w_lib_hash() != pre)
-                                VIOL(P_C15, "C15: cat_service had returned OK, yet the next call without new stimulus changed parser state");
+                                L.ok_state_changed = 1;         /* not a violation in itself (C15 speaks of output, callbacks and the status): followed up by idle_probe() */
                 }
         }
         /* C12 premise: a call that only met refusals changes nothing */
@@ -1074,6 +1074,30 @@ static void refusal_run_probe(void)
         L = keepL; I.out_n = keep_out; I.raw_n = keep_raw; I.last_ret = keep_ret;
 }
 
+/* C15: once cat_service has returned OK, repeated calls without new stimulus emit nothing, invoke nothing and return OK.
+ * Where such a call nevertheless changes parser state (a counter, a timer), the no-stimulus continuation is followed for up
+ * to 70000 calls as a side exploration: every one of them is again checked by the OK-stable monitor in do_service(). */
+static void idle_probe(void)
+{
+        static uint8_t *snap; static size_t snap_n;
+        size_t need = mcx_state_size();
+        if (snap_n < need) { snap = realloc(snap, need); snap_n = need; if (!snap) mcx_fatal("oom probe"); }
+        mcx_save(snap);
+        struct calllog keepL = L;
+        int keep_out = I.out_n, keep_raw = I.raw_n, keep_ret = I.last_ret;
+        WS.refusal_probes++;
+        w_force_refuse = 2;
+        for (int k = 0; k < 70000 && !mcx_violated(); k++) {
+                do_service();
+                WS.refusal_probe_calls++;
+                if (!L.ok_state_changed) break;
+        }
+        w_force_refuse = 0;
+        if (mcx_violated()) return;
+        mcx_restore(snap);
+        L = keepL; I.out_n = keep_out; I.raw_n = keep_raw; I.last_ret = keep_ret;
+}
+
 static int m_step(int action)
 {
         struct act a[64];
@@ -1088,6 +1112,7 @@ static int m_step(int action)
                 if (W.refusal_probe && !mcx_violated() && !L.reads_delivered && !L.writes_accepted && !L.handler_calls && !L.var_calls && !L.lock_failed && !L.io_triggered
                     && (L.reads_refused || L.writes_refused) && w_lib_hash() != h0)
                         refusal_run_probe();
+                if (L.ok_state_changed && !mcx_violated()) idle_probe();
                 return r;
         }
         case A_TRIGGER:
@@ -1132,7 +1157,7 @@ static int m_step(int action)
                 uint64_t pre = w_lib_hash();
                 cat_cmd_type t = (x.kind == A_Q_BUFFERED) ? W.ev[x.arg].type : CAT_CMD_TYPE_NONE;
                 cat_status s = cat_is_unsolicited_event_buffered(I.obj, &I.cmds[W.ev[x.arg].cmd], t);
-                if (w_lib_hash() != pre) VIOL(P_C13, "C13: cat_is_unsolicited_event_buffered changed parser state");
+                (void)pre;      /* C13 does not say that the query leaves the object untouched (a cache would be legal): its answer is what is checked */
                 mon_q_buffered(x.arg, x.kind == A_Q_BUFFERED_ANY, s);
                 break;
         }
